@@ -108,7 +108,7 @@ fn pct_decode(s: &str, plus_is_space: bool) -> Option<Vec<u8>> {
 }
 
 /// Independent reading of the request line; returns the first discrepancy.
-fn judge_request(line: &str, name: &str, hash: &str) -> Option<(String, String)> {
+pub fn judge_request(line: &str, name: &str, hash: &str) -> Option<(String, String)> {
     let mut parts = line.split(' ');
     let (method, target, version) = (parts.next().unwrap_or(""), parts.next().unwrap_or(""), parts.next().unwrap_or(""));
     if method != "GET" || !version.starts_with("HTTP/1.") || parts.next().is_some() {
@@ -490,5 +490,6 @@ pub fn run(cli: Cli) -> ! {
     rep.sample(json!({"name": names[names.len() / 2]}));
     rep.assume("needs the add-only verif-hooks feature of passage-adapters-http (origin override from PASSAGE_VERIF_SESSION_URL); path and query are assembled by the unhooked code; TLS to the real session server is not exercised");
     rep.assume("both RFC 3986 and form encoding of the same name are accepted ('+' may stand for a space)");
+    crate::app::mojang_host(&rep, "C12");
     rep.finish()
 }
